@@ -8,6 +8,8 @@ env = dict(os.environ, GOFLAGS='-mod=mod', GOPROXY='off', GOSUMDB='off', GOTOOLC
 ids = sys.argv[1:] or sorted(os.path.basename(d) for d in glob.glob('/verif/seeded/*') if os.path.isdir(d))
 have = set(subprocess.run(['/verif/bin/fv', 'list'], capture_output=True, text=True).stdout.split())
 def sh(c): return subprocess.run(c, shell=True, capture_output=True, text=True, env=env)
+import fcntl
+_lock = open('/tmp/seeds_fv.lock', 'w'); fcntl.flock(_lock, fcntl.LOCK_EX)  # replays patch /repo in place: one at a time
 assert sh('git -C /repo status --porcelain').stdout.strip() == '', '/repo not clean'
 for sid in ids:
     d = f'/verif/seeded/{sid}'
